@@ -171,6 +171,19 @@ func (cl *cluster) oracleElection(v controller.VerifView, s signal) {
 	if len(v.Registered) < cl.quorum() {
 		cl.violate("election", "signal-before-majority", fmt.Sprintf("start signalled to %s with %d registered, RF=%d", s.target, len(v.Registered), cl.cfg.RF))
 	}
+	// ground truth: replicas that have registered since they last left the volume (a failed start signal voids the
+	// target's registration in the controller, which the truth follows)
+	if !(v.StartSignalled && v.MaxRevReplica == s.target) {
+		n := 0
+		for node := range cl.regTruth {
+			if _, ok := v.Registered[ip(node)]; ok {
+				n++
+			}
+		}
+		if n < cl.quorum() {
+			cl.violate("election", "signal-before-majority-of-live-registrations", fmt.Sprintf("start signalled to %s although only %d replica(s) have registered since they last left the volume (quorum %d); the controller counts %d entries: %s", s.target, n, cl.quorum(), len(v.Registered), regStr(v)))
+		}
+	}
 	t, ok := v.Registered[s.target]
 	if !ok {
 		cl.violate("election", "signal-to-unregistered", fmt.Sprintf("start signalled to %s which is not registered: %v", s.target, v.Registered))
